@@ -1,6 +1,6 @@
 (* C15 — position information spans exactly the matched tokens. *)
-From Coq Require Import List String NArith Bool Arith.
-From Pegen Require Import Base.StrUtil Base.Values Runtime.Tokenizer Sem.Peg Gen.Gen Runtime.Exec Proofs.LocProofs.
+From Coq Require Import List String NArith ZArith Bool Arith Lia.
+From Pegen Require Import Base.StrUtil Base.Values Runtime.Tokenizer Sem.Peg Gen.Gen Runtime.Exec Proofs.LocProofs Proofs.LocRun.
 Import ListNotations.
 Open Scope string_scope.
 
@@ -33,3 +33,77 @@ Example C15_demo :
            {| pos := 2; fetched := 4; cache := []; invalid := false; events := [] |} = Some (tk 55 "+" 2).
 Proof. vm_compute. reflexivity. Qed.
 Print Assumptions C15_demo.
+
+(* INTERPRETER LEVEL (fifth session, Proofs/LocRun.v).  For EVERY IR module, every behaviour of the
+   methods it calls ([rec] is arbitrary: cache replays, seed growing, tracing, error mode, anything),
+   every state the method is entered in -- i.e. every history of backtracking, lookahead and cache
+   reuse, however far the fetched array extends -- and every fuel: when a method that captures the
+   start position returns a truthy value v, then v is what the action of one of its alternatives
+   [a] produced, evaluated in an environment in which
+     - start_lineno / start_col_offset are those of the token at the position the method was
+       entered at (t0), and
+     - if the alternative uses LOCATIONS and the matched range [pos st, pos st2) holds at least one
+       token that is not NEWLINE / INDENT / DEDENT / ENDMARKER: end_lineno / end_col_offset are those
+       of the LAST such token of the range (index j: inside the range, everything after it up to
+       the end of the match is layout) -- never a token from before the match, never one that a
+       failed earlier attempt or a lookahead fetched beyond it.
+   [matched_by] also records that the conjunction of [a] ran from the entry position to the final
+   position of the method. *)
+Theorem C15_action_receives_the_span_of_the_match :
+  forall K toks verbose use_cache M aeval exact_types token_dict rec fuel m st v st2,
+  m_loop m = false -> m_locations m = true ->
+  run_body K toks verbose use_cache M aeval exact_types token_dict rec fuel m st = (Ok v, st2) ->
+  truthy v = true ->
+  (exists j x, pos st <= j < pos st2 /\ nth_error toks j = Some x /\ is_ws (tok_consts K) x = false) ->
+  exists t0 a st' j tend,
+    nth_error toks (pos st) = Some t0 /\ In a (m_alts m) /\ pos st2 = pos st' /\
+    matched_by K toks verbose use_cache M aeval exact_types token_dict rec (pos st) (Some t0) a v st' /\
+    pos st <= j < pos st2 /\ nth_error toks j = Some tend /\ is_ws (tok_consts K) tend = false /\
+    (forall k x, j < k < pos st2 -> nth_error toks k = Some x -> is_ws (tok_consts K) x = true) /\
+    forall e,
+      env_get (act_env K toks a (Some t0) st' e) "start_lineno" = Some (VInt (Z.of_nat (sline t0))) /\
+      env_get (act_env K toks a (Some t0) st' e) "start_col_offset" = Some (VInt (Z.of_nat (scol t0))) /\
+      (a_locations a = true ->
+       env_get (act_env K toks a (Some t0) st' e) "end_lineno" = Some (VInt (Z.of_nat (eline tend))) /\
+       env_get (act_env K toks a (Some t0) st' e) "end_col_offset" = Some (VInt (Z.of_nat (ecol tend)))).
+Proof.
+  intros K toks verbose use_cache M aeval ex td rec fuel m st v st2 Hl Hloc H Hv Hex.
+  destruct (run_body_action K toks verbose use_cache M aeval ex td rec fuel m st v st2 Hl Hloc H Hv)
+    as (t0 & a & st' & Ht0 & Hin & Hm & Hq).
+  destruct (last_in_range (tok_consts K) toks (pos st) (pos st2) Hex) as (j & tend & Hr & Hn & Hw & Hk & Hlast).
+  exists t0, a, st', j, tend. repeat split; try assumption; try lia.
+  - apply act_env_start.
+  - apply act_env_start.
+  - apply (act_env_end K toks a t0 st' e tend H0). unfold last_tok. rewrite <- Hq. exact Hlast.
+  - apply (act_env_end K toks a t0 st' e tend H0). unfold last_tok. rewrite <- Hq. exact Hlast.
+Qed.
+Print Assumptions C15_action_receives_the_span_of_the_match.
+
+(* Non-vacuity: a method `s: n=NAME l='+' { LOCATIONS }` entered at 0 in a state in which earlier attempts have
+   fetched all four tokens of `a + 1 NEWLINE`: it returns the action's value, the matched range [0,2) holds
+   non-layout tokens, and the action saw start (1,0) and end (1,3) = the end of '+'. *)
+Definition demo_alt : ialt :=
+  {| a_has_cut := false; a_guard := false;
+     a_conjs := [ {| cj_var := Some "n"; cj_call := CMeth "name"; cj_notnone := false |};
+                  {| cj_var := Some "l"; cj_call := CExpect "'+'"; cj_notnone := false |} ];
+     a_locations := true; a_action := "LOC"; a_names := ["n"; "l"]; a_explicit := true; a_unreachable := false |}.
+Definition demo_meth : meth :=
+  {| m_name := "s"; m_deco := DMemo; m_type := ""; m_comment := ""; m_nullable := false; m_without_invalid := false;
+     m_locations := true; m_loop := false; m_gather := false; m_alts := [demo_alt] |}.
+Definition demo_mod : ir_module :=
+  {| i_header := None; i_subheader := ""; i_class := "P"; i_meths := [demo_meth]; i_keywords := []; i_soft_keywords := [];
+     i_trailer := None |}.
+Definition demo_aeval (_ : string) (e : env) : option value :=
+  match env_get e "start_lineno", env_get e "start_col_offset", env_get e "end_lineno", env_get e "end_col_offset" with
+  | Some a, Some b, Some c, Some d => Some (VTuple [a; b; c; d])
+  | _, _, _, _ => None
+  end.
+Definition demo_toks := [tk 1 "a" 0; tk 55 "+" 2; tk 2 "1" 4; tk 4 "" 5].
+Definition demo_st := {| pos := 0; fetched := 4; cache := []; invalid := false; events := [] |}.
+Example C15_action_demo :
+  let r := run_body KD demo_toks false true demo_mod demo_aeval [] [] (fun _ st => (Ok VNone, st)) 3 demo_meth demo_st in
+  fst r = Ok (VTuple [VInt 1; VInt 0; VInt 1; VInt 3]) /\ pos (snd r) = 2 /\
+  m_loop demo_meth = false /\ m_locations demo_meth = true /\
+  (exists j x, pos demo_st <= j < 2 /\ nth_error demo_toks j = Some x /\ is_ws (tok_consts KD) x = false).
+Proof. vm_compute. repeat split. exists 0, (tk 1 "a" 0). repeat split; auto. Qed.
+Print Assumptions C15_action_demo.
